@@ -116,6 +116,15 @@ def run_check(prop, tier, rule_fn, meta):
         print(f"CHECKER-ERROR property={prop}", file=sys.stderr)
         return 3
 
+    selftest = None
+    if tier == "thorough":
+        from . import selftest as st
+        budget = int(os.environ.get("VERIF_MUTANTS", "64"))
+        try:
+            selftest = st.run(prop, raw, rule_fn, ck, seed, budget)
+        except Exception:
+            selftest = {"error": traceback.format_exc()[-800:]}
+
     known = load_known()
     kmap = {k["key"]: k for k in known.get("findings", []) if k.get("property") == prop}
     failed = [o for o in ck.obls if not o["ok"]]
@@ -186,6 +195,7 @@ def run_check(prop, tier, rule_fn, meta):
             "known_findings_resolved": resolved,
             "new_violations": [o["key"] for o in new],
             "notes": ck.notes,
+            "fact_mutation_selftest": selftest if selftest is not None else "thorough tier only",
             "checker_cmd": f"./check {prop} --tier {tier}",
             "trusted_base": meta.get("trusted_base", [])
             + [
